@@ -8,8 +8,11 @@ SAMPLE = {"int": "3", "float": "2.5", "str": "'ab'", "list": "[1, 2]", "tuple": 
 EMPTY = {"str": "''", "list": "[]", "tuple": "()"}
 
 
+NEG = {"int": "-2", "float": "-2.5"}
+
+
 def sample(t, shape):
-    return EMPTY[t] if shape == "empty" else SAMPLE[t]
+    return EMPTY[t] if shape == "empty" else NEG[t] if shape == "neg" else SAMPLE[t]
 
 
 def render(e):
